@@ -280,7 +280,7 @@ PROPS["C17"] = dict(
     explanation="std's sort makes a monolithic CBMC proof infeasible beyond 3 elements, hence the modular split with Verus carrying the sort-dependent part.",
     unverified_links=[
         "watchdog/src/fetch.rs fetch_all_providers_data (async, join_all) writing every provider's BlockInfo each round",
-        "synchronise_api_access (async): acts only when target is Some and differs from the canister's flag (by inspection)",
+        "the inter-canister calls around synchronise_api_access (get_config / set_config: stand-ins); the function itself IS verified: the flag is changed exactly when this round has a decision and it differs from the flag read back",
     ],
     assumptions=COMMON_ASSUMPTIONS + ["heights < 2^62, thresholds <= 10^6", "slice::sort yields the sorted permutation"],
 )
